@@ -21,7 +21,7 @@ try:
     demo = [f for f in glob.glob(src + "/demo.*") if not f.endswith(".log")][0]
     txt = open(demo).read()
     extra = " -DZSTD_WINDOW_OVERFLOW_CORRECT_FREQUENTLY=1" if "ZSTD_WINDOW_OVERFLOW_CORRECT_FREQUENTLY" in txt[:3000] else ""
-    seek = " contrib/seekable_format/zstdseek_compress.c contrib/seekable_format/zstdseek_decompress.c" if "seekable" in txt else ""
+    seek = " contrib/seekable_format/zstdseek_compress.c contrib/seekable_format/zstdseek_decompress.c" if "seekable" in txt and '#include "zstdseek_' not in txt else ""
     if demo.endswith(".c"):
         build = ("gcc -O1 -g -w -DZSTD_MULTITHREAD%s -I lib -I lib/common -I lib/compress -I lib/decompress -I contrib/seekable_format -I . %s%s lib/common/*.c lib/compress/*.c "
                  "lib/decompress/*.c lib/decompress/*.S lib/dictBuilder/*.c -lpthread -o demo_bin" % (extra, demo, seek))
